@@ -30,6 +30,30 @@ def run(ctx):
     valcorr.check_val_correspondence(ctx, cases, "C14")
     # oracle: the equation itself on ahbicht
     n_soll = 0
+    # both flags in flight at once on one event loop (an API of coroutines is called like this): each validation reports what it reports on its own
+    alone = {}
+    for c in cases:
+        alone[(id(c["lines"]), repr(c["cer"]), repr(c["packages"]), c["soll"])] = c
+    n_both = 0
+    for c in cases:
+        other = alone.get((id(c["lines"]), repr(c["cer"]), repr(c["packages"]), not c["soll"]))
+        if not c["soll"] or other is None or n_both >= (60 if ctx.quick else 600):
+            continue
+        if not any(rewrite_soll(x, "Muss") != x for n in c["lines"] for x in valcorr.all_exprs(n)):
+            continue
+        n_both += 1
+        valcorr.reset_cer(c)
+        want = {True: valcorr.summarize(c["res"]), False: valcorr.summarize(other["res"])}
+        for order, delay in (((True, False), 0), ((False, True), 0), ((True, False), 1), ((False, True), 2)):
+            got = [valcorr.summarize(r) for r in valcorr.run_validation_both_flags(c["lines"], order, delay)]
+            ctx.add_eval(2)
+            bad = [i for i in (0, 1) if got[i] != want[order[i]]]
+            if bad:
+                i = bad[0]
+                ctx.fail(f"soll-concurrent|{order}|{delay}|{str(valcorr.describe(c))[:300]}", dict(valcorr.describe(c), concurrent_flags=list(order), second_started_after_turns=delay, deviating_flag=order[i]),
+                         f"soll_is_required={order[i]} reports what it reports when it runs alone: {want[order[i]][1] if want[order[i]][0] == 'exn' else want[order[i]][1][:8]}",
+                         f"{got[i][1] if got[i][0] == 'exn' else got[i][1][:8]}", "oracle: the strict and the lenient validation of one AHB, in flight at the same time, each give their own result")
+                break
     for c in cases:
         valcorr.reset_cer(c)
         word = "Muss" if c["soll"] else "Kann"
